@@ -531,6 +531,10 @@ def _to_z3(e, env, side):
     raise Unsupported(f'cannot translate {e.func.__name__} to QF_NRA')
 
 
+NRA_RLIMIT = [int(__import__('os').environ.get('VERIF_NRA_RLIMIT', '0')) or 400_000_000]
+NRA_RL_MAX = [0]
+
+
 def nra_solve(hyps, goal, timeout_ms=60000):
     """decide  (axioms of the context symbols) and hyps  =>  goal   over the reals.
     hyps/goal: tuples (op, lhs, rhs) with op in {'<','<=','>','>=','==','!='} on real sympy expressions.
@@ -558,9 +562,15 @@ def nra_solve(hyps, goal, timeout_ms=60000):
     for s, (fname, arg, axioms) in c.other.items():
         for ax in axioms:
             cons.append(rel(ax))
-    sol = z3.Solver(); sol.set('timeout', timeout_ms)
+    # deterministic resource budget (load independent); the wall-clock timeout is a 10x backstop
+    sol = z3.Solver(); sol.set('timeout', timeout_ms * 10); sol.set('rlimit', NRA_RLIMIT[0])
     sol.add(*cons, *side, z3.Not(g))
     t0 = time.time(); r = sol.check(); dt = time.time() - t0
+    try:
+        st = sol.statistics()
+        NRA_RL_MAX[0] = max([NRA_RL_MAX[0]] + [int(st.get_key_value(k)) for k in st.keys() if k == 'rlimit count'])
+    except Exception:
+        pass
     if r == z3.unsat:
         return 'unsat', None, dt
     if r == z3.sat:
